@@ -3,6 +3,7 @@
   Property theorems only (model: Model/Geometry.lean).
 -/
 import PsVerif.Model.Geometry
+import PsVerif.Model.GeomExpr
 import Mathlib.Algebra.Order.Field.Rat
 import Mathlib.Data.Rat.Cast.Order
 import Mathlib.Tactic.Linarith
@@ -123,5 +124,25 @@ theorem module_name_old_wrong :
   decide
 
 example : boxIndices 0 1 1 2 3 [0, 1, 2, 3, 4, 5, 6, 7, 8] = [3, 6, 4, 7] := by decide +kernel
+
+/-- **C13 (translation tie, pixel box).** If the regenerated membership test of the loop in
+`get_constrained_sensors_indices` is the model's condition (`box_Box` of `Generated/Boxes.lean`), filtering the ranking
+with it and transposing the kept pixels is the model's `boxIndices`. -/
+theorem translated_box (cond : GB) (h : ∀ env p, cond.holds env p ↔ specBoxCond env = true)
+    (xmin xmax ymin ymax : Rat) (n : Nat) (rk : List Nat) :
+    (rk.filter fun s => cond.eval (boxEnv xmin xmax ymin ymax n s) { x := 0, y := 0 }).map (fun s => (s % n) * n + s / n)
+      = boxIndices xmin xmax ymin ymax n rk := by
+  unfold boxIndices
+  congr 1
+  apply List.filter_congr
+  intro s _
+  have h1 := h (boxEnv xmin xmax ymin ymax n s) { x := 0, y := 0 }
+  rw [← GB.eval_iff] at h1
+  have h2 : specBoxCond (boxEnv xmin xmax ymin ymax n s) =
+      decide (xmin ≤ ((s / n : Nat) : Rat) ∧ ((s / n : Nat) : Rat) ≤ xmax ∧
+              ymin ≤ ((s % n : Nat) : Rat) ∧ ((s % n : Nat) : Rat) ≤ ymax) := by
+    simp [specBoxCond, boxEnv]
+  rw [h2] at h1
+  cases hg : cond.eval (boxEnv xmin xmax ymin ymax n s) { x := 0, y := 0 } <;> simp_all
 
 end PsVerif
